@@ -251,6 +251,36 @@ impl SamplingWindow {
     }
 }
 
+#[cfg(feature = "verif")]
+impl SamplingWindow {
+    /// (stored intervals oldest first, incremental sum, last heartbeat instant)
+    pub(crate) fn verif_dump(&self) -> (Vec<f64>, f64, Option<Instant>) {
+        let len = self.intervals.len();
+        let capacity = self.intervals.values.len();
+        let mut values = Vec::with_capacity(len);
+        for i in 0..len {
+            let pos = if self.intervals.is_filled {
+                (self.intervals.index + i) % capacity
+            } else {
+                i
+            };
+            values.push(self.intervals.values[pos]);
+        }
+        (values, self.intervals.sum, self.last_heartbeat)
+    }
+}
+
+#[cfg(feature = "verif")]
+impl FailureDetector {
+    pub(crate) fn verif_window(&self, chitchat_id: &ChitchatId) -> Option<&SamplingWindow> {
+        self.node_samples.get(chitchat_id)
+    }
+
+    pub(crate) fn verif_dead_nodes(&self) -> &HashMap<ChitchatId, Instant> {
+        &self.dead_nodes
+    }
+}
+
 /// An array that retains a fixed number of streaming values.
 #[derive(Debug)]
 struct BoundedArrayStats {
